@@ -57,7 +57,10 @@ def split_world(rng, w, st0, goal, k):
         wi.name = w.name
         wi.requirements = w.requirements
         wi.types = list(w.types)
-        wi.constants = dict(w.constants)
+        # every file declares some of the constants, in an order of its own (root-typed ones anywhere in the list)
+        cs = [c for c in w.constants.items() if i == 0 and rng.random() < 0.7 or rng.random() < 0.6]
+        rng.shuffle(cs)
+        wi.constants = dict(cs)
         mine = [a for a in acts if i in owner[a["name"]]]
         used = set()
         usedf = set()
@@ -156,8 +159,8 @@ def canon_vocab(v):
 def run_split(ctx, rng, thorough, case_no):
     from pddl_plus_parser.multi_agent import MultiAgentDomainsConverter, MultiAgentProblemsConverter
     w = magen.ma_world(rng, n_agents=rng.randint(2, 4))
-    if rng.random() < 0.5:
-        w.constants = {"base": "loc"}
+    if rng.random() < 0.6:
+        w.constants = dict(rng.sample([("base", "loc"), ("hq", "object"), ("spare", "item"), ("anything", "object")], rng.randint(1, 4)))
     k = rng.randint(1, len(w.agents))
     w.agents = w.agents[:k]
     for a in list(w.objects):
@@ -174,7 +177,18 @@ def run_split(ctx, rng, thorough, case_no):
     os.makedirs(d, exist_ok=True)
     dtexts, ptexts = [], []
     for i, wi in enumerate(files_d):
-        t = wi.domain_text()
+        ast = wi.domain_ast()
+        if rng.random() < 0.5:
+            # MA-PDDL style: some predicates of the file sit in a (:private ...) block - first, last or in the middle
+            for sec in ast:
+                if isinstance(sec, list) and sec and sec[0] == ":predicates" and len(sec) > 2:
+                    ps = sec[1:]
+                    n_priv = rng.randint(1, len(ps) - 1)
+                    priv = [ps.pop(rng.randrange(len(ps))) for _ in range(n_priv)]
+                    ps.insert(rng.randint(0, len(ps)), [":private"] + priv)
+                    sec[1:] = ps
+                    ctx.count("agent_files_with_a_private_predicates_block")
+        t = sx.plain(ast)
         dtexts.append(t)
         with open(os.path.join(d, f"domain-{w.agents[i]}.pddl"), "wt") as f:
             f.write(t)
